@@ -273,6 +273,35 @@ def copy_args(c):
     return None
 
 
+def copy_helper_args(fb, c):
+    """(dst, src, length) in the caller's terms when call c goes to an in-repo helper whose whole body
+    is one raw copy over its parameters (`void put(v, off, src, n) { memcpy(v.data() + off, src, n); }`)."""
+    if fb is None or c.get("k") != "call" or c.get("op") is not None:
+        return None
+    if "obj" in c and not (c.get("callee") or {}).get("static"):
+        return None
+    g = fb.resolve_call(c)
+    if g is None or g.body is None:
+        return None
+    body = g.body.get("body", []) if g.body.get("k") == "compound" else [g.body]
+    if len(body) != 1:
+        return None
+    inner = strip_all_casts(body[0]) if body[0].get("k") != "return" else strip_all_casts(body[0].get("e") or {})
+    ca = copy_args(inner) if inner.get("k") == "call" else None
+    if ca is None or ca[2] is None:
+        return None
+    args = effective_call(c).get("args", [])
+    if len(args) != len(g.params):
+        return None
+    pd = {p["decl"] for p in g.params}
+    for part in ca:
+        for x in walk(part):
+            if x.get("k") == "ref" and x.get("dk") in ("local", "param") and x.get("decl") not in pd:
+                return None
+    mapping = {p["decl"]: a for p, a in zip(g.params, args)}
+    return tuple(substitute(part, mapping) for part in ca)
+
+
 def range_copy_args(fn, c):
     """(container node, src, length node or None) when c copies a raw pointer range [p, p + n) into a
     container that allocates for it: v.assign(p, q), v.insert(pos, p, q), vector(p, q).  Else None."""
